@@ -81,10 +81,14 @@ def count_rules(ctx, rep, P):
                 rep.check(P + ".count", "%s::%s folds the checksum over buf[0..amt], the bytes actually transferred" % (st.strip("^$"), meth), good2 and bool(upd), loc_of(cb), "",
                           "the checksum is folded over bytes other than the ones the inner stream transferred (whole buffer instead of buf[0..amt]): short reads/writes corrupt the CRC")
     rep.floor(P + ".count", "I/O adaptors", n, 4)
+    limited_reader_rule(F, rep, P + ".count")
+
+
+def limited_reader_rule(F, rep, RULE):
     # the block-size limiter of the metadata reader
     lr = [b for b in F.bodies if b.promoted is None and re.search(r"LimitedReader<R> as std::io::Read>::read$", b.path)]
     if not lr:
-        rep.bad(P + ".count", "anchor:LimitedReader::read", "", "not found")
+        rep.bad(RULE, "anchor:LimitedReader::read", "", "not found")
     for b in lr[:1]:
         mins = [t for _, t in b.calls() if re.search(r"Ord::min$|cmp::min$", callee_name(t))]
         inner = [t for _, t in b.calls() if (t["f"].get("path") or "") == "std::io::Read::read"]
@@ -103,8 +107,9 @@ def count_rules(ctx, rep, P):
                     if re.search(r"SubAssign<.*>>::sub_assign$", callee_name(t)):
                         nsub += 1
                         by_amt = by_amt or (body is cb and is_amt(t["a"][1]))
-        rep.check(P + ".count", "LimitedReader: the remaining block size shrinks by the bytes actually read", len(mins) == 1 and ac is not None and ac[2] and nsub == 1 and by_amt, loc_of(b), "",
+        rep.check(RULE, "LimitedReader: the remaining block size shrinks by the bytes actually read", len(mins) == 1 and ac is not None and ac[2] and nsub == 1 and by_amt, loc_of(b), "",
                   "the metadata block limiter no longer accounts the bytes returned by the inner read: a source that splits its reads ends the block early")
+
 
 def flush_forward_rules(ctx, rep, P):
     """every io::Write adaptor of the crate forwards flush() to the stream it wraps and returns that result"""
